@@ -117,16 +117,18 @@ impl<T> Matrix<T> {
             return Err(Error::IndexOutOfBounds);
         }
         let base = self.data.as_mut_ptr();
-        let mut index = m * self.minor_stride();
-        let mut jndex = n * self.minor_stride();
-        for _ in 0..self.major() {
+        let index = m * self.minor_stride();
+        let jndex = n * self.minor_stride();
+        for i in 0..self.major() {
+            // `offset + index` and `offset + jndex` are in-bounds offsets,
+            // so they cannot overflow; a running offset advanced past the
+            // last vector could (zero-sized elements, size near `usize::MAX`)
+            let offset = i * self.major_stride();
             unsafe {
-                let x = base.add(index);
-                let y = base.add(jndex);
+                let x = base.add(offset + index);
+                let y = base.add(offset + jndex);
                 ptr::swap(x, y);
             }
-            index += self.major_stride();
-            jndex += self.major_stride();
         }
         Ok(self)
     }
